@@ -62,6 +62,19 @@ func init() {
 		Outside:     []string{"programs outside the 11 templates", "loop counts > 3, nesting depth > 2", "generators, goto, strings in conditions"},
 	})
 
+	reg(Check{
+		ID:  "C04",
+		Pkg: "verif/harness/c04",
+		Runs: []RunDef{
+			{Fn: "H_special", Tier: "quick", Reach: []string{"end"}},
+			{Fn: "H_pairs", Tier: "quick", Reach: []string{"end"}},
+			{Fn: "H_triples", Tier: "thorough", Reach: []string{"end"}},
+		},
+		Rule:        rule + "; all ordered pairs (quick) and triples (thorough) of the 23 binary operators of the table plus 38 unary/ternary/??/assignment/concatenation forms; each is printed with minimal and with full parentheses, both parsed by the real parser and evaluated on symbolic 64-bit ints: two different parse trees are separated by a solver-chosen operand assignment",
+		Assumptions: []string{"operands are ints (concrete pool {0,1,2,3,-1} where ** or . is involved: math.Pow / number formatting are not encoded)", "chains inside the non-associative comparison/equality classes are not part of the table"},
+		Outside:     []string{"casts (need package std)", "depth 4-5 trees", "float/bool/string operands"},
+	})
+
 	c17 := func(fn string, p map[string]int) RunDef {
 		return RunDef{Fn: fn, Params: p, Tier: "quick", Reach: []string{"end"}}
 	}
